@@ -185,6 +185,26 @@ pub fn shape_of(sc: &Scenario) -> u64 {
     for op in &sc.ops {
         fold(&mut h, op.kind_code() as u64);
     }
+    match &sc.twin {
+        Twin::Threads { threads, instances, schedule } => {
+            fold(&mut h, *threads as u64);
+            for i in instances {
+                fold(&mut h, i.config.kind as u64 ^ ((i.home as u64) << 8) ^ ((i.ops.len() as u64) << 16));
+                for op in &i.ops {
+                    fold(&mut h, op.kind_code() as u64);
+                }
+            }
+            for s in schedule {
+                fold(&mut h, s.1 as u64 ^ ((s.2 as u8 as u64) << 8));
+            }
+        }
+        Twin::Chunking { config_b, frames, setchunk_a, setchunk_b, steps } => {
+            fold(&mut h, config_b.kind as u64 ^ ((config_b.chunk as u64) << 8) ^ ((sc.config.chunk as u64) << 32));
+            fold(&mut h, *frames);
+            fold(&mut h, (setchunk_a.len() as u64) ^ ((setchunk_b.len() as u64) << 16) ^ ((steps.len() as u64) << 32));
+        }
+        _ => {}
+    }
     h
 }
 
